@@ -728,6 +728,9 @@ func (r *runner) recoverStages(acked uint64, res *recoverLine) *stageError {
 	if len(stale) > 0 {
 		return stageErr("tmp-after-open", fmt.Errorf("staging files survive Open: %v", stale))
 	}
+	if se := r.retryRestores(); se != nil {
+		return se
+	}
 	if r.snapFirst > 0 {
 		if se := r.snapshotFirst(r.snapFirst - 1); se != nil {
 			return se
